@@ -1738,9 +1738,16 @@ func (rn *runner) seqAction(v, c *tmconsensus.VersionedRoundView) bool {
 	h, r := rn.lastEnterH, rn.lastEnterR
 	x := w.r.below(100)
 	if x < 14 && v.Height == h && v.Round == r {
-		// its own proposal for the round it is in (a well-formed one: the kernel files it without any check)
+		// its own proposal for the round it is in: the kernel files it without any check. Mostly a well-formed one;
+		// now and then one whose block hash is wrong (the witness of C05Act_local_ph_keeps_chain_invariant_refuted:
+		// the real kernel files it just the same)
+		variant := 0
+		if x < 3 {
+			variant = 1
+			rn.stats["sm_action_ph_unchecked"]++
+		}
 		rn.phViaAction = true
-		rn.proposal(v, c, h, r, 0)
+		rn.proposal(v, c, h, r, variant)
 		rn.phViaAction = false
 		return true
 	}
@@ -1767,7 +1774,7 @@ func (rn *runner) seqAction(v, c *tmconsensus.VersionedRoundView) bool {
 		target = fmt.Sprintf("local-only-%d", w.r.below(2)) // a target nobody else votes for
 	}
 	flaw := 0
-	if w.r.chance(1, 6) {
+	if w.r.chance(1, 4) {
 		flaw = 1 + w.r.below(5)
 	}
 	rn.doSeqActionVote(kind, target, flaw)
@@ -1902,8 +1909,13 @@ func (rn *runner) scripted(op string, v, c *tmconsensus.VersionedRoundView) bool
 		if !rn.canAct() || !(rn.lastEnterH == H && rn.lastEnterR == R) {
 			return false
 		}
+		phVariant := 0
+		if rn.w.r.chance(1, 4) {
+			phVariant = 1 // wrong block hash: filed all the same (C05Act_local_ph_keeps_chain_invariant_refuted)
+			rn.stats["sm_action_ph_unchecked"]++
+		}
 		rn.phViaAction = true
-		rn.proposal(v, c, H, R, 0)
+		rn.proposal(v, c, H, R, phVariant)
 		rn.phViaAction = false
 	default:
 		panic("unknown scripted op " + op)
